@@ -90,6 +90,26 @@ func affine(v ssa.Value, d int) Aff {
 		}
 	case *ssa.ChangeType:
 		return affine(x.X, d-1)
+	case *ssa.UnOp:
+		// load of a local that is assigned exactly once (address-taken because a
+		// closure captures it), in this function or — through a free variable —
+		// in the enclosing one
+		if x.Op == token.MUL {
+			var al *ssa.Alloc
+			switch a := x.X.(type) {
+			case *ssa.Alloc:
+				al = a
+			case *ssa.FreeVar:
+				if b := freeVarBinding(a); b != nil {
+					al, _ = b.(*ssa.Alloc)
+				}
+			}
+			if al != nil && isIntType(x.Type()) {
+				if sv := singleStore(al); sv != nil {
+					return affine(sv, d-1)
+				}
+			}
+		}
 	case *ssa.BinOp:
 		switch x.Op {
 		case token.ADD:
